@@ -1,6 +1,7 @@
 // C05 - mh_sha1 / mh_sha256 equal the multi-hash definition for any update segmentation.
 #include "../common/mh_engine.hpp"
 static std::vector<mh::Fam> g_fams;
+static long g_case_no = 0;
 int main(int argc, char **argv)
 {
         pbt::Prop<mh::Case> P;
@@ -12,7 +13,9 @@ int main(int argc, char **argv)
                 }
                 if (g_fams.empty()) { fprintf(stderr, "HARNESS-ERROR: no mh family available\n"); exit(3); }
         };
-        P.gen = [](pbt::Ctx &ctx) { return mh::gen_case(g_fams[pbt::rng<size_t>(0, g_fams.size() - 1)], (uint64_t) ctx.optnum("bigmax", 300000), ctx.optnum("giant_ppm", 0)); };
+        P.gen = [](pbt::Ctx &ctx) { return mh::gen_case(g_fams[pbt::rng<size_t>(0, g_fams.size() - 1)], (uint64_t) ctx.optnum("bigmax", 300000), ctx.optnum("giant_ppm", 0),
+                                                           // the first `giants` cases of every worker are giant streams: one just above 2^29 bytes, the following ones just below 2^32
+                                                           g_case_no++ < ctx.optnum("giants", 0) ? (g_case_no == 1 ? 1 : 2) : 0); };
         P.to_json = [](const mh::Case &c) { return mh::to_json(c); };
         P.from_json = [](const J &j) { return mh::from_json(j); };
         P.run = [](const mh::Case &c, pbt::Ctx &ctx) {
@@ -23,7 +26,7 @@ int main(int argc, char **argv)
                 mh::Stats st;
                 bool ok = mh::execute(c, *f, ctx, st);
                 ctx.label("fam=" + c.fam);
-                if (c.giant) ctx.label("giant-stream(~2^32 bytes)");
+                if (c.giant) ctx.label(st.total < (1ull << 31) ? "giant-stream(>=2^29 bytes)" : "giant-stream(~2^32 bytes)");
                 ctx.label(st.total == 0 ? "total=0" : st.total < 1024 ? "total<1024" : st.total % 1024 == 0 ? "total=k*1024" : "total>1024");
                 ctx.label("updates=" + std::to_string(c.pieces.size()));
                 ctx.nontrivial = st.carry_cross;
